@@ -37,7 +37,11 @@ def _run_path(contract, case, schedule, lengths, budget, want_canaries=False):
                 for E, cond in rz.items():
                     c.prove("raises[%s].absent" % E.__name__, S.lnot(cond),
                             "normal return although the contract demands %s" % E.__name__)
-                for nm, f in contract.post(S, case, env, outcome[1]):
+                for clause in contract.post(S, case, env, outcome[1]):
+                    nm, f = clause[0], clause[1]
+                    if lengths is None:
+                        for h in clause[2:]:
+                            c.prove_hint(h() if callable(h) else h)
                     c.prove("post." + nm, f)
                 if want_canaries:
                     for nm, f in contract.canaries(S, case, env, outcome[1]):
@@ -208,3 +212,34 @@ class Stub(object):
         while self._saved:
             owner, nm, orig = self._saved.pop()
             setattr(owner, nm, orig)
+
+
+_fresh_ids = itertools.count()
+
+
+def contract_stub(contract_cls, also=()):
+    """A Stub that replaces contract_cls.target by its contract: requires proved at the call site,
+    raises-conditions forked, result = fresh symbols constrained by the ensures."""
+    contract = contract_cls()
+
+    def replacement(*args, **kwargs):
+        c = sym.ctx()
+        S = SymSpec(c)
+        try:
+            case, env = contract.bind(*args, **kwargs)
+        except NotImplementedError as e:
+            raise NeedsContract("%s called outside its contract's cases: %s" % (contract.target, e))
+        tag = "call[%s]" % contract.name
+        for nm, f in contract.requires(S, case, env):
+            c.prove("%s.requires.%s" % (tag, nm), f, "precondition of %s at a call site" % contract.target)
+        for E, cond in contract.raises(S, case, env).items():
+            if c.decide(sym.to_z3(cond), "%s raises %s" % (tag, E.__name__)):
+                raise E("raised by the contract of %s" % contract.target)
+        env["_fresh"] = "%s!%d" % (contract.name, next(_fresh_ids))
+        result = contract.fresh_result(S, case, env)
+        for clause in contract.post(S, case, env, result):
+            c.add(sym.to_z3(clause[1]))
+        c.assumed.append(contract.target)
+        return result
+    replacement.__name__ = contract.target.split(":")[1].split(".")[-1]
+    return Stub(contract.target, replacement, also)
